@@ -77,7 +77,8 @@ func c03Disturbers() []disturber {
 			// loop in the hand-off to this stream until the RPC is cancelled - after which
 			// everything else must run again
 			wl := StdWorkload("d", 9, "ServerStream", []int{3}, nil)
-			wl.Call.Ops = []COp{{K: "new"}, {K: "send", Size: 3}, {K: "closesend"}, {K: "waitdone"}, {K: "recvall"}}
+			// (the caller abandons the stream after the cancellation: it never drains it)
+			wl.Call.Ops = []COp{{K: "new"}, {K: "send", Size: 3}, {K: "closesend"}, {K: "waitdone"}}
 			wl.Handler.Ops = []HOp{{K: "recv"}, {K: "send", Size: 3}, {K: "send", Size: 3}, {K: "send", Size: 3}, {K: "send", Size: 3}, {K: "return"}}
 			wl.Handler.KeepGoing = true
 			return wl
